@@ -39,6 +39,16 @@ CHECKS = {
         text="For every scheme option the hard decision on each received point must be the label of a constellation point within d_min+1e-4 of it, and every soft output must equal c.(D1-D0)/noise_var with one positive constant c per demodulator (estimated, not prescribed), have the sign of D1-D0, be independent of noise_var after multiplication by it over six decades, and a per-symbol noise-variance tensor must reproduce the per-symbol scalar results. Differential schemes are probed on their normalised decision variable, pi/4-QPSK at even and odd positions.",
         note="Reference tables are the published (constellation, bit_patterns), tied to the mapper by C14.c. float32 tolerances: 1e-4 absolute on distances, 2e-3 relative on LLR ratios.",
         design="4/C06"),
+    "C07": dict(
+        technique="deterministic same-seed metamorphic relations (noise(P2)=sqrt(P2/P1).noise(P1), noise(SNR)=noise(Ps/10^(snr/10)), input scaling) on every configuration + seeded statistical tests of the unit-noise law with a stated false-alarm bound; dense-grid conversion oracles",
+        text="AWGN, Laplacian, nonlinear-with-noise (identity and cubic) and the noise stage of flat fading are replayed under one RNG seed for noise powers 1e-3..250 and SNRs -20..40 dB on real and complex inputs of power 1e-3..1e3 and 1-D/2-D/4-D shapes: the added noise must be sqrt(P) times the unit noise of that seed with P the configured power resp. signal_power/10^(snr/10); on 4e6 (thorough 3.2e7) samples the noise mean is 0, mean |n|^2 equals the configured power (summed over re+im, split evenly), the Laplacian kurtosis is 6 and calculate_snr / SignalToNoiseRatio measure the configured SNR; dB/linear/noise-power conversions on 2001-point grids incl. tensors; supplied noise is added verbatim.",
+        note="z = 7.5 sigma tolerances from the moments of the specified law (per-run false-alarm bound < 1.3e-10). float32 casts: 2e-4..3e-4 relative tolerance on deterministic relations plus eps32*max|signal| for the rounding of s+n. The SNR metric's documented +eps is included.",
+        design="4/C07"),
+    "C08": dict(
+        technique="Hypothesis-generated (constraint, target, dtype, shape, signal family, scale, zero items) cases judged per batch item against float64 power / PAPR / amplitude oracles; idempotence and rescaling metamorphic relations; composite-equals-sequential differential",
+        text="For Total/Average/PerAntenna power constraints every item must have power <= target (non-zero input), within 0.1% of it (input power >= 1e-4), be the input times one positive real factor, and the constraint must be idempotent and invariant to input rescaling; PeakAmplitude bounds every sample and leaves inner samples untouched; PAPR output <= limit on non-sparse items; CompositeConstraint / combine_constraints / apply_constraint_chain equal sequential application bit for bit; create_ofdm_constraints / create_mimo_constraints satisfy all configured upper limits simultaneously on feasible configurations.",
+        note="Batch = dim 0 when >1 rows (documented); float32 tolerances 1e-3 on power, 1e-4 on ratios; PAPR demanded on the non-sparse family stated in the property.",
+        design="4/C08"),
     "C10": dict(
         technique="Hypothesis-generated parity-check graphs (sparse, cycle-free by union-find) and real LLR vectors against float64 references: codebook marginalisation, brute-force soft-ML, textbook flooding min-sum; exhaustive codewords x magnitudes for the clean clause",
         text="Clean LLRs (|LLR| 0.5..50) of every codeword (k<=8) or seeded codewords are decoded by BP (iterations 1..20, exact/Taylor), min-sum (scaling/offset/normalized), Wagner and soft Reed-Muller on a fixed LDPC matrix, generated sparse H and catalogue codes, output shape (...,k); Wagner's output is compared with the maximum correlation over all even-weight words on generated tie-free real vectors; BP soft outputs equal brute-force bitwise posteriors on generated cycle-free graphs (inside the decoder's clipping range); min-sum soft outputs equal a textbook flooding min-sum and are homogeneous under input rescaling (offset 0, inside the +-500 clamp); a single weak wrong-sign LLR is corrected.",
@@ -49,6 +59,16 @@ CHECKS = {
         text="For every N in 2..32 with every k, sampled (N,k) up to 1024, both frozen values and interleaving options, the information set is compared with an independent parse of the pinned 5G reliability sequence, every codeword with u.F^(x m) (bit-reversed when polar_i) for all 2^k messages (k<=10) in batches of 1..8, the generator matrix with the Kronecker power; SC (sum-product, min-sum) and BP-polar return the message from clean LLRs of magnitude 0.5..100; for generated real LLR vectors the SC output equals a float64 textbook SC; user-supplied masks are honoured; BP-polar rejects polar_i=True.",
         note="The 5G sequence is pinned in /verif/data/polar_5g_q.json (sha256 of the repository CSV recorded; structural invariants re-checked each run). Sum-product comparison restricted to reference magnitudes <=12 and margins >=1e-2 (float32 saturation), min-sum to margins >=1e-4; skipped cases are counted.",
         design="4/C11"),
+    "C12": dict(
+        technique="exact support/direction invariants on every sample of enumerated (channel, p, alphabet, dtype, shape) cells + seeded statistical tests (rates on 0s and 1s, lag and cross-row correlations) with a stated false-alarm bound",
+        text="BSC, Z and erasure channels are run for p in {0,1e-3,...,0.999,1}, alphabets {0,1} and {-1,+1}, float32/float64/int64/bool inputs and 1-D/2-D/4-D shapes: outputs stay in alphabet + erasure symbol, Z never turns 0 into 1, unerased symbols are unchanged, p=0 is the identity and p=1 the deterministic extreme, the input tensor is bit-identical afterwards; on 4e6 (thorough 3.2e7) symbols the event rate equals p separately on the 0s and the 1s, lag-1..3 and cross-row correlations vanish, and two calls give different realisations.",
+        note="z = 7.5 sigma (per-run false-alarm bound < 1e-10). With the default erasure symbol -1 on bipolar inputs only 'changed positions carry the erasure symbol' is decidable.",
+        design="4/C12"),
+    "C13": dict(
+        technique="Hypothesis-generated (L, T, layout, dtype) cases with exact structural oracles (y=h.x+n with supplied csi/noise, block constancy through g=y/x at zero noise) + seeded statistical tests of the gain law and same-seed noise-calibration replays",
+        text="Rayleigh, Rician (K 0..100) and log-normal channels: with supplied channel state and noise the output is exactly h.x+n (csi full / per-item / scalar), shapes are preserved for 1-D/2-D/4-D, gains are constant inside each block of T samples with ceil(L/T) distinct draws per item (T dividing, not dividing and exceeding L); on 1e6 (thorough 8e6) blocks E|h|^2=1, E h = sqrt(K/(K+1)), scattered power 1/(K+1), adjacent blocks and batch items uncorrelated; under one seed the noise for an SNR equals sqrt(mean|h.x|^2/snr) times the unit noise, i.e. it is calibrated on the faded signal.",
+        note="z = 7.5 sigma; block constancy tolerance 1e-5 relative; csi/noise shapes follow the flattened (B, L) layout the channel documents.",
+        design="4/C13"),
     "C14": dict(
         technique="exhaustive pairwise examination of every published and mapper-induced constellation table; Gray utilities exhaustively below 2^16, Hypothesis-generated up to 2^60, plus an atheris (libFuzzer) campaign with the oracle inside the target",
         text="Every scheme's published table and the table induced by modulating every bit group are checked for 2^b distinct points, bijective labels, unit mean energy where requested/by definition, agreement with each other, and the Gray property on all nearest-neighbour pairs; binary_to_gray/gray_to_binary and their array forms are compared with n^(n>>1), inverted both ways and checked for unit Hamming distance of consecutive integers on all n<2^16 and generated n<2^60; a coverage-guided campaign looks for special-cased constants.",
